@@ -89,13 +89,21 @@ func VerifC19LaunchMany() {
 			e.k.SetOptedIn(e.ctx, cid, types.NewProviderConsAddress(vConsAddr(0)))
 		}
 	}
-	clk.failCreate = vh.Bool("client_creation_fails")
+	// client creation fails never (0), on its first call (1) or on its second call (2)
+	clk.failOnCall = vh.ConcretizeInt(vh.Int("client_creation_fails_on_call"), 0, 2)
 	e.st.hist = true
 	vh.Reach("before-beginblock")
 	berr := e.k.BeginBlockLaunchConsumers(e.ctx)
 	vh.Assert(berr == nil, "C19.begin-block-launch-never-fails")
+	attempts := 0
 	for i, cid := range ids {
-		ok := opted[i] && !clk.failCreate
+		ok := opted[i]
+		if opted[i] {
+			attempts++ // the launch reaches client creation (consumers are processed in queue order)
+			if attempts == clk.failOnCall {
+				ok = false
+			}
+		}
 		ph := e.k.GetConsumerPhase(e.ctx, cid)
 		_, hasClient := e.k.GetConsumerClientId(e.ctx, cid)
 		_, hasGen := e.k.GetConsumerGenesis(e.ctx, cid)
